@@ -146,6 +146,14 @@ type Exec struct {
 	succNamed    map[string]bool       // keys mentioned in succeeded("...") clauses of this unit
 	callsNamed   map[string]bool       // keys mentioned in calls("...") clauses of this unit
 	lastretNamed map[string]bool       // keys mentioned in lastret("...") clauses of this unit
+	seenCallee   map[string]bool       // callee keys for which a call was executed (vacuity guard for the path facts)
+}
+
+func (e *Exec) sawCallee(key string) {
+	if e.seenCallee == nil {
+		e.seenCallee = map[string]bool{}
+	}
+	e.seenCallee[key] = true
 }
 
 type privBox struct{ heap, ref string }
